@@ -31,16 +31,19 @@ Record DefinitionLocation := mkLoc { parent_scope : node; dl_span : Span }.
 Definition loc_eqb (a b : DefinitionLocation) : bool :=
   Nat.eqb (parent_scope a) (parent_scope b) && span_eqb (dl_span a) (dl_span b).
 
-Inductive DefinitionType := DtFilename (f : nat) | DtSymbol (nx : node).
+(* DtUnassembled: a symbol defined by code that is not part of the program (untaken branch, uninvoked macro); it has
+   been removed from the symbol table again and keeps its definition under a key of its own *)
+Inductive DefinitionType := DtFilename (f : nat) | DtSymbol (nx : node) | DtUnassembled (k : nat).
 
 Definition dt_eqb (a b : DefinitionType) : bool :=
   match a, b with
   | DtFilename f, DtFilename f' => Nat.eqb f f'
   | DtSymbol n, DtSymbol n' => Nat.eqb n n'
+  | DtUnassembled n, DtUnassembled n' => Nat.eqb n n'
   | _, _ => false
   end.
 
-Definition is_symbol (t : DefinitionType) : bool := match t with DtSymbol _ => true | DtFilename _ => false end.
+Definition is_symbol (t : DefinitionType) : bool := match t with DtFilename _ => false | _ => true end.
 
 Record Def := mkDef { location : option DefinitionLocation; usages : list DefinitionLocation }.
 
@@ -79,7 +82,7 @@ Definition find_filter (a : Analysis) (filter_ : DefinitionType -> bool) (file l
   filter (fun e => filter_ (fst e) &&
                    match fst e with
                    | DtFilename _ => contains_usage (snd e) file line col
-                   | DtSymbol _ => contains (snd e) file line col
+                   | _ => contains (snd e) file line col
                    end) a.
 Definition find_ (a : Analysis) (file line col : nat) : Analysis := find_filter a (fun _ => true) file line col.
 
